@@ -22,6 +22,7 @@ EXPLANATION = (
     "`sent` attribute; table type and insertion site; guard facts at the two _connect() call sites; structure of "
     "the connect retry closures; dominance order inside close(); call graph of sendString."
 )
+SHARED = [('C06', ['R5'], 'a cancelled request is never re-sent: the canceller drops an unwritten entry and the loss handler drops cancelled ones')]
 ASSUMPTIONS = ["OrderedDict iterates in insertion order", "Twisted calls connectionLost once per connection"]
 BC = "brokerclient:_KafkaBrokerClient"
 
